@@ -723,6 +723,7 @@ def _check_worker(ctx, repo, path):
              and call_name(n.value) == 'append' and isinstance(n.value.func.value, ast.Name)
              and any(isinstance(x, ast.Call) and U(x.func).endswith('DataFrame') and x.args and U(x.args[0]) == n.value.func.value.id
                      for x in ast.walk(f.node))]
+    sinks.sort(key=lambda n: (n.lineno, n.col_offset))
     if len(sinks) != 2:
         raise AnalysisError('%s: expected two row appends (empty-empty pairs, filtered pairs), found %d' % (f.where, len(sinks)))
     pls = []
@@ -735,11 +736,24 @@ def _check_worker(ctx, repo, path):
     if len(pls) != 2 or len(fcalls) != 1:
         raise AnalysisError('%s: prefix lengths / _filter_suffix call not recognisable' % f.where)
     conds = Conds(f.node, None)
-    c_empty, c_main = conds.of(sinks[0]), conds.of(sinks[1])
     from ..guards import f_and, f_not
-    ref = f_and(f_not(_inner(c_empty, c_main)), f_not(to_formula(parse_expr('%s <= 0 or %s <= 0' % tuple(pls)))),
+    # the innermost loop that contains both sinks, and the `if` that guards the empty-empty sink
+    loops = [n for n in walk_own(f.node) if isinstance(n, ast.For) and all(any(x is sk for x in ast.walk(n)) for sk in sinks)]
+    if not loops:
+        raise AnalysisError('%s: the two row appends are not in one loop' % f.where)
+    inner_loop = loops[-1]
+    guard = None
+    for n in ast.walk(inner_loop):
+        if isinstance(n, ast.If) and any(x is sinks[0] for st_ in n.body for x in ast.walk(st_)) \
+                and not any(x is sinks[1] for st_ in n.body for x in ast.walk(st_)):
+            guard = n
+            break
+    if guard is None:
+        raise AnalysisError('%s: the guard of the empty-empty append was not found' % f.where)
+    c_body = conds.of(inner_loop.body[0])
+    got = conds.of(sinks[1])
+    ref = f_and(c_body, f_not(to_formula(guard.test)), f_not(to_formula(parse_expr('%s <= 0 or %s <= 0' % tuple(pls)))),
                 f_not(('lit', fcalls[0], True)))
-    got = _inner(c_main, c_empty, strip_common=True)
     w = Universe(int_atoms=lambda a: True).equivalent(got, ref)
     ctx.check('R-SUFFIX/worker', f, 'emission condition', w is None,
               'the worker emits a pair under `%s`; it must be exactly: not the admitted empty-empty case, both prefix lengths '
